@@ -1541,6 +1541,34 @@ def integral_model(interp, func, a, b, **kw):
     return ctx.integral(feval, a, b, key)
 
 
+def np_lstsq(interp, A, b, rcond=None):
+    """assumed contract of numpy.linalg.lstsq: x minimises |Ax - b|, i.e. it
+    satisfies the normal equations A^T (A x - b) = 0 (any such x when the
+    minimiser is not unique)"""
+    ops = interp.ops
+    Ad = _asdata(interp, A)
+    bd = _asdata(interp, b)
+    if not isinstance(Ad, list) or not Ad or not isinstance(Ad[0], list):
+        raise Unsupported('lstsq of a non-matrix')
+    n, k = len(Ad), len(Ad[0])
+    if not isinstance(bd, list) or len(bd) != n:
+        raise_('ValueError', 'lstsq: incompatible dimensions')
+    ctx = interp.ctx
+    x = [Sym(ctx.fresh('lstsq_x%d' % j, 'real')) for j in range(k)]
+    resid = []
+    for i in range(n):
+        acc = 0
+        for j in range(k):
+            acc = ops.binop(ADD, acc, ops.binop(MUL, Ad[i][j], x[j]))
+        resid.append(ops.binop(SUB, acc, bd[i]))
+    for j in range(k):
+        acc = 0
+        for i in range(n):
+            acc = ops.binop(ADD, acc, ops.binop(MUL, Ad[i][j], resid[i]))
+        ctx.assume(ops.equals(acc, 0))
+    return (NDArr(x), NDArr(resid), k, None)
+
+
 def external_modules(interp):
     E = {}
 
@@ -1590,7 +1618,9 @@ def external_modules(interp):
         'real': B('real', np_real), 'roots': B('roots', np_roots),
         'isreal': B('isreal', np_isreal),
     }
+    np_tab['linalg'] = _mod('numpy.linalg', {'lstsq': B('lstsq', np_lstsq)})
     E['numpy'] = np_mod = _mod('numpy', np_tab)
+    E['numpy.linalg'] = np_tab['linalg']
     E['math'] = _mod('math', {
         'exp': B('exp', lambda it, x: _exp(it, x)),
         'log': B('log', lambda it, x: _log(it, x)),
